@@ -145,7 +145,7 @@ def generate(ctx, fx, fxpath):
         groups[k] = out
         if k == 2:
             ctx.cov["tempting_strata"] = len(names)
-    caps = {0: 10 ** 9, 1: 400, 2: 1000, 3: 200} if quick else {0: 10 ** 9, 1: 6000, 2: 12000, 3: 4000}
+    caps = {0: 10 ** 9, 1: 400, 2: 1000, 3: 200} if quick else {0: 10 ** 9, 1: 5000, 2: 9000, 3: 3000}
     sel = []
     for k in sorted(groups):
         sel += groups[k][:caps[k]]
